@@ -238,6 +238,8 @@ def c09(env, thorough):
         {'op': 'update', 'user': 'root', 'pw': 'rootpw2', 'default': 2},
         {'op': 'setadmin', 'user': 'root', 'admin': False},
         {'op': 'remove', 'user': 'root'},
+        {'op': 'add', 'user': 'd', 'pw': 'p4', 'admin': True},
+        {'op': 'remove', 'user': 'a'},      # removal of an administrator record
     ]
     # second history: records that carry auxiliary data (the acknowledged record includes it)
     h2 = [
@@ -248,13 +250,15 @@ def c09(env, thorough):
         {'op': 'remove', 'user': 'c'},
         {'op': 'add', 'user': 'c', 'pw': 'cnew'},
         {'op': 'update', 'user': 'c', 'pw': 'cnew2'},
+        {'op': 'remove', 'user': 'b'},      # an administrator with auxiliary data
+        {'op': 'remove', 'user': 'nobody'},  # removal of a user that does not exist
     ]
     aux = {'b.user': b'totp: JBSWY3DPEHPK3PXP\nsecond line\nlast line without newline', 'root.admin': (b'x' * 1023 + b'\n') * 9}
     _c09_history(env, 'from-empty', [], {}, h1, {})
     _c09_history(env, 'with-aux-data', STD_SETUP, aux, h2, {'root': ('rootpw', True), 'b': ('bpw', False), 'c': ('cpw', False)})
     return env.evidence(
-        'two traced histories without any harness sync: (1) init, add, update, set-admin(true), set-admin(false), remove, add(admin), update(other default), demotion and removal of the last admin on an initially empty directory; '
-        '(2) updates / set-admin / remove / add on a store whose records carry auxiliary data (3 lines without final newline; 9 KiB). At every acknowledgement and at every later mutating system call: every power-loss image '
+        'two traced histories without any harness sync: (1) init, add, update, set-admin(true), set-admin(false), remove, add(admin), update(other default), demotion and removal of the last admin, add(admin), removal of an admin on an initially empty directory; '
+        '(2) updates / set-admin / remove (user, admin, missing user) / add on a store whose records carry auxiliary data (3 lines without final newline; 9 KiB). At every acknowledgement and at every later mutating system call: every power-loss image '
         '(every subset of pending directory operations x every prefix of pending writes); each image must show every acknowledged operation: observed through a fresh store.Dir AND byte-exact against the file the operation acknowledged; '
         'distinct = distinct (history, acknowledged prefix, phase, observed abstract state)',
         ['persistence model as in C08; operations in progress may show either their old or new state (their intermediate states are judged by C08)'])
@@ -491,9 +495,7 @@ def c15_faults(env, thorough):
 
 
 def c15_readonly(env, thorough):
-    tmpl = os.path.join(env.work, 'c15r', 'store')
-    build_tree(env, tmpl, STD_SETUP, {'weird.user': b'argon2id:1:99:AAAA:AAAA\n'})
-    steps = [
+    all_steps = [
         {'op': 'auth', 'user': 'b', 'pw': 'bpw'}, {'op': 'auth', 'user': 'b', 'pw': 'wrong'}, {'op': 'auth', 'user': 'nobody', 'pw': 'x'},
         {'op': 'auth', 'user': 'weird', 'pw': 'x'}, {'op': 'auth', 'user': 'c', 'pw': 'cpw'},
         {'op': 'exists', 'user': 'b'}, {'op': 'exists', 'user': 'nobody'}, {'op': 'list'}, {'op': 'listfull'}, {'op': 'check'},
@@ -502,38 +504,55 @@ def c15_readonly(env, thorough):
         {'op': 'update', 'user': 'weird', 'pw': 'x'}, {'op': 'setadmin', 'user': 'nobody', 'admin': True}, {'op': 'setadmin', 'user': 'b', 'admin': False},
         {'op': 'init', 'user': 'r2', 'pw': 'x'},
     ]
-    pre = read_tree(tmpl)
-    fs = FS(tmpl)
-    muts = []
-
-    def on_access(op, phase, c, mut, desc, paths):
-        if phase != 'in':
-            return
-        flags = c.args[2] if c.name == 'openat' and len(c.args) > 2 else ''
-        if mut or ('O_CREAT' in flags or 'O_WRONLY' in flags or 'O_RDWR' in flags or 'O_TRUNC' in flags) and any(p and p.startswith(tmpl) for p in paths):
-            muts.append((op, c.name, desc or c.raw[:120]))
-    run = engine.run_driver(env.drv, env.work, {'base': tmpl, 'snap': True, 'steps': steps}, tag='c15r')
-    points, stats, acked = engine.replay(tmpl, fs, run, want_power=False, on_access=on_access)
-    env.cov['traces_validated_against_impl'] += stats['validated']
-    env.cov['evaluations'] += len(steps)
     ro = 10
-    for op, name, desc in muts:
-        st = steps[op]
-        kind = 'read-only-call-mutates' if op < ro else 'failed-op-mutates'
-        # a semantically failing add/update/set-admin may not even attempt a mutation ... except the no-op set-admin
-        env.violation('%s:%s:%s' % (kind, st['op'], name), 'step %s issued a mutating system call: %s' % (st, desc.replace(tmpl + '/', '')), {'step': st, 'call': desc})
-    for r in run.report:
-        st = steps[r['i']]
-        after = engine.snap_to_tree(r.get('snap') or {})
-        if after != pre:
-            diff = sorted(set(after) ^ set(pre)) + [k for k in after if k in pre and after[k] != pre[k]]
-            env.violation('store-changed:%s' % st['op'], 'step %s (result ok=%s) changed the store: %s' % (st, r['ok'], diff), {'step': st})
-        if r['i'] >= ro and r['ok'] and not (st['op'] == 'setadmin' and st['user'] == 'b'):
-            env.violation('semantic-failure-succeeds:%s' % st['op'], 'step %s should fail but succeeded' % st, {'step': st})
-        env.distinct.add((st['op'], st.get('user'), r['ok'], r.get('res')))
-    env.samples.append({'readonly_steps': [s['op'] for s in steps[:ro]], 'failing_steps': [s['op'] + ':' + s['user'] for s in steps[ro:]]})
+    # tree variants: the work area present (as after any completed change), absent (a store that was
+    # only ever initialised or was synchronised from elsewhere) and left behind non-empty; in the
+    # last two only the read-only calls are run (whether a failing change may create the empty work
+    # area is not something the property decides)
+    for variant in ('tmp-present', 'tmp-absent', 'tmp-with-leftover'):
+        tmpl = os.path.join(env.work, 'c15r-' + variant, 'store')
+        build_tree(env, tmpl, STD_SETUP, {'weird.user': b'argon2id:1:99:AAAA:AAAA\n'})
+        steps = all_steps
+        if variant == 'tmp-absent':
+            shutil.rmtree(os.path.join(tmpl, '.tmp'), ignore_errors=True)
+            steps = all_steps[:ro]
+        elif variant == 'tmp-with-leftover':
+            os.makedirs(os.path.join(tmpl, '.tmp'), exist_ok=True)
+            with open(os.path.join(tmpl, '.tmp', 'b.user.123456'), 'wb') as f:
+                f.write(b'argon2id:1:1:AAAA:AAAA\n')
+            steps = all_steps[:ro]
+        pre = read_tree(tmpl)
+        fs = FS(tmpl)
+        muts = []
+
+        def on_access(op, phase, c, mut, desc, paths):
+            if phase != 'in':
+                return
+            flags = c.args[2] if c.name == 'openat' and len(c.args) > 2 else ''
+            if mut or ('O_CREAT' in flags or 'O_WRONLY' in flags or 'O_RDWR' in flags or 'O_TRUNC' in flags) and any(p and p.startswith(tmpl) for p in paths):
+                muts.append((op, c.name, desc or c.raw[:120]))
+        run = engine.run_driver(env.drv, env.work, {'base': tmpl, 'snap': True, 'steps': steps}, tag='c15r-' + variant)
+        points, stats, acked = engine.replay(tmpl, fs, run, want_power=False, on_access=on_access)
+        env.cov['traces_validated_against_impl'] += stats['validated']
+        env.cov['evaluations'] += len(steps)
+        vtag = '' if variant == 'tmp-present' else ':' + variant
+        for op, name, desc in muts:
+            st = steps[op]
+            kind = 'read-only-call-mutates' if op < ro else 'failed-op-mutates'
+            # a semantically failing add/update/set-admin may not even attempt a mutation ... except the no-op set-admin
+            env.violation('%s:%s:%s%s' % (kind, st['op'], name, vtag), '[%s] step %s issued a mutating system call: %s' % (variant, st, desc.replace(tmpl + '/', '')), {'step': st, 'call': desc, 'variant': variant})
+        for r in run.report:
+            st = steps[r['i']]
+            after = engine.snap_to_tree(r.get('snap') or {})
+            if after != pre:
+                diff = sorted(set(after) ^ set(pre)) + [k for k in after if k in pre and after[k] != pre[k]]
+                env.violation('store-changed:%s%s' % (st['op'], vtag), '[%s] step %s (result ok=%s) changed the store: %s' % (variant, st, r['ok'], diff), {'step': st, 'variant': variant})
+            if r['i'] >= ro and r['ok'] and not (st['op'] == 'setadmin' and st['user'] == 'b'):
+                env.violation('semantic-failure-succeeds:%s' % st['op'], 'step %s should fail but succeeded' % st, {'step': st})
+            env.distinct.add((variant, st['op'], st.get('user'), r['ok'], r.get('res')))
+    env.samples.append({'readonly_steps': [s['op'] for s in all_steps[:ro]], 'failing_steps': [s['op'] + ':' + s['user'] for s in all_steps[ro:]], 'tree_variants': ['tmp-present', 'tmp-absent', 'tmp-with-leftover']})
     return env.evidence(
-        'one traced driver run: authenticate (right/wrong/missing user/unsupported record/other parameter set), exists, list, list-full, check, and semantically failing add/update/set-admin/init; every system call inside each step is replayed in the FS model: no mutation and no open for writing/creation under the store, snapshot identical after every step',
+        'traced driver runs on three tree variants (work area present / absent / with a leftover file): authenticate (right/wrong/missing user/unsupported record/other parameter set), exists, list, list-full, check, and (first variant) semantically failing add/update/set-admin/init; every system call inside each step is replayed in the FS model: no mutation and no open for writing/creation under the store, snapshot identical after every step',
         ['library level; the frontends only call authenticate (C04)'])
 
 
@@ -578,7 +597,10 @@ def c03(env, thorough):
         f.write(rec)
     base, sib, empty = os.path.join(root, 'base'), os.path.join(root, 'sib'), os.path.join(root, 'empty')
     names = c03_names(root)
-    for ni, name in enumerate(names):
+    # tree variants for valid names: the work area <base>/.tmp replaced by a regular file, so that
+    # no temporary file can be created where it belongs (must fail inside the base, not go elsewhere)
+    cases = [(n, None) for n in names] + [(b'bob', 'tmp-is-file'), (b'new1', 'tmp-is-file')]
+    for ni, (name, variant) in enumerate(cases):
         valid = bool(NAME_RE.match(name))
         ub = base64.b64encode(name).decode()
         steps = []
@@ -595,6 +617,11 @@ def c03(env, thorough):
                   {'op': 'list'}, {'op': 'listfull'},
                   {'op': 'check', 'base': os.path.join(root, 'onlybad')}]
         copy_tree(tmpl, root)
+        if variant == 'tmp-is-file':
+            shutil.rmtree(os.path.join(base, '.tmp'), ignore_errors=True)
+            with open(os.path.join(base, '.tmp'), 'wb') as f:
+                f.write(b'not a directory\n')
+        tree_before = read_tree(root)
         fs = FS(root)
         accesses = []
 
@@ -610,8 +637,8 @@ def c03(env, thorough):
         shown = repr(name if len(name) < 40 else name[:20] + b'...(%d bytes)' % len(name))
 
         def viol(kind, step, msg, extra=None):
-            env.violation('%s:%s' % (kind, step['op']), '[user name %s, %s] %s' % (shown, step['op'], msg),
-                          {'name_b64': ub, 'step': step, 'detail': extra})
+            env.violation('%s:%s%s' % (kind, step['op'], (':' + variant) if variant else ''), '[user name %s, %s%s] %s' % (shown, step['op'], (', tree variant ' + variant) if variant else '', msg),
+                          {'name_b64': ub, 'step': step, 'detail': extra, 'variant': variant})
         # (1) path oracle
         for op, c, mut, desc, paths in accesses:
             st = steps[op]
@@ -620,7 +647,10 @@ def c03(env, thorough):
                 if p is None:
                     continue
                 if not (p == root or p.startswith(root + '/')):
-                    if mut or c.name in ('renameat', 'unlinkat', 'mkdirat') and c.ret == 0:
+                    oflags = c.args[2] if c.name == 'openat' and len(c.args) > 2 else ''
+                    creating = c.name == 'openat' and c.ret is not None and c.ret >= 0 and any(f in oflags for f in ('O_CREAT', 'O_WRONLY', 'O_RDWR', 'O_TRUNC')) \
+                        and not p.startswith(('/dev/', '/proc/', '/sys/'))
+                    if mut or creating or c.name in ('renameat', 'renameat2', 'unlinkat', 'mkdirat', 'linkat', 'symlinkat') and c.ret == 0:
                         viol('mutation-outside-sandbox', st, '%s touched %s' % (c.name, p))
                     continue
                 rel = os.path.relpath(p, b)
@@ -645,7 +675,7 @@ def c03(env, thorough):
             st = steps[r['i']]
             after = engine.snap_to_tree(r.get('snap') or {})
             if before is None:
-                before = read_tree(tmpl)
+                before = tree_before
             b_rel = os.path.relpath(st.get('base', base), root)
             outside_changed = [k for k in set(before) | set(after) if not (k == b_rel or k.startswith(b_rel + '/')) and before.get(k) != after.get(k)]
             if outside_changed:
@@ -670,8 +700,8 @@ def c03(env, thorough):
             before = after
         if ni % 9 == 0:
             env.samples.append({'name': shown, 'valid': valid, 'results': ['%s:%s%s' % (steps[r['i']]['op'], 'ok' if r['ok'] else 'err', ('=' + r['res']) if r.get('res') else '') for r in run.report][:8]})
-    env.cov['states'] = len(names)
+    env.cov['states'] = len(cases)
     return env.evidence(
-        '%d user names (empty, dot segments, traversal into a sibling store, absolute paths, aliases after path cleaning, leading - . _ @, control bytes, NUL, NAME_MAX, 5000 bytes, non-UTF-8, valid controls) x operations authenticate (3 passwords), exists, update, set-admin(t/f), add(user/admin), remove, init, list, list-full, check; one traced driver run per name on a tree with a sibling store and decoys; '
+        '%d user names (+2 runs of valid names on a tree whose work area .tmp is a regular file) (empty, dot segments, traversal into a sibling store, absolute paths, aliases after path cleaning, leading - . _ @, control bytes, NUL, NAME_MAX, 5000 bytes, non-UTF-8, valid controls) x operations authenticate (3 passwords), exists, update, set-admin(t/f), add(user/admin), remove, init, list, list-full, check; one traced driver run per name on a tree with a sibling store and decoys; '
         'oracles: every path-taking system call stays inside the contract, nothing outside the base directory changes, invalid names have no effect and never authenticate, List shows no invalid name, an invalid-named admin does not satisfy Check' % len(names),
         ['paths are normalised lexically (the tree contains no symlinks)', 'library level; the frontends are covered by the in-process part'])
